@@ -11,7 +11,7 @@ PROP = {
     ],
     "assumptions": [
         "atomicity of the LTS steps as read from the code (DESIGN.md Appendix A.2): B1 and B2 are each ONE read of the supervisor state word; dispatchFrame runs on one goroutine, so its select commit precedes the dispatch of the next frame",
-        "the supervisor state word changes only at the three synchronous commits and at disconnect/close steps (C05_causes) - the current code violates this when a commit echo is replayed (DESIGN.md §5 #1; e2e row 'deselected-fast', known finding C07-deselect-replay)",
+        "the supervisor state word changes only at the three synchronous commits and at disconnect/close steps (C05_causes) - the pinned tree violated this when a commit echo was replayed (DESIGN.md §5 #1), repaired in /repo by 737422e; the e2e row deselected-fast is the regression case (finding C07-deselect-replay, fixed)",
         "byte-level regrouping of the peer's stream is the reader's business (C04_segmentation); the model hands the dispatcher whole frames in stream order, the e2e pass cuts the byte string at every offset",
         "abstractions that only add behaviours: writeMu not modelled, unbounded async queue, lifecycle actions enabled whenever structurally possible",
     ],
